@@ -208,6 +208,12 @@ theorem bridge_turnout_factor (w bw : ℚ) : turnoutFactor (some w) bw = Gen.C09
 
 theorem bridge_baseline_plus_one (b : ℚ) : Gen.C09.last_election_results b = b + 1 := rfl
 
+/-- the baseline weights of a run do not depend on what the baseline frame already carries: they are reset to turnout, and a derived
+    estimand (`margin` sets the two-party weights) is recomputed whenever its generating function exists, column present or not (fix F-19) -/
+theorem bridge_derived_baseline_recomputed :
+    Gen.C09.baseline_weights_reset = ["data_df = self.add_weights(data_df, BASELINE_PREFIX)"] ∧
+    Gen.C09.derived_baseline_guard = ["baseline_col not in data_df.columns or callable(globals().get(estimand))"] := ⟨rfl, rfl⟩
+
 theorem bridge_default_weights :
     Gen.C09.default_weights = ["data_df[f'{col_prefix}weights'] = data_df[f'{col_prefix}turnout']"] := rfl
 
